@@ -12,7 +12,7 @@ from rsim.prf import Rng, digest
 PROP = "C19"
 LEVEL = "exploration"
 TIERS = {
-    "quick": {"cases": 220, "budget_s": 75, "batch": 48},
+    "quick": {"cases": 400, "budget_s": 150, "batch": 48},
     "thorough": {"cases": 6000, "budget_s": 900, "batch": 64},
 }
 RULE = (
